@@ -421,13 +421,16 @@ pub struct Knobs {
     /// re-executed concurrently by real, unscheduled threads and compared with their quiescent
     /// results. A scout for races inside added code; NOT deterministic, see DESIGN.md §2.8
     pub stress: u64,
+    /// 1 = guard mode of the allocator: large buffers end at an inaccessible page and become
+    /// inaccessible when freed (faults.rs)
+    pub guard: u64,
     /// scenario tag (informational): 0 random mix, 1 contention palette, 2 sweep, 3 C07 battery, 4 C12 clone family
     pub scn: u64,
 }
 
 impl Default for Knobs {
     fn default() -> Self {
-        Knobs { slots: 0, preempt: 0, heap: 0, iso: 0, repeat: 1, stress: 0, scn: 0 }
+        Knobs { slots: 0, preempt: 0, heap: 0, iso: 0, repeat: 1, stress: 0, guard: 0, scn: 0 }
     }
 }
 
@@ -455,7 +458,7 @@ impl Trace {
         let _ = writeln!(s, "profile {}", self.profile);
         for r in &self.runs {
             let k = &r.knobs;
-            let _ = writeln!(s, "run seed={} slots={} preempt={} heap={} iso={} repeat={} stress={} scn={}", r.seed, k.slots, k.preempt, k.heap, k.iso, k.repeat, k.stress, k.scn);
+            let _ = writeln!(s, "run seed={} slots={} preempt={} heap={} iso={} repeat={} stress={} guard={} scn={}", r.seed, k.slots, k.preempt, k.heap, k.iso, k.repeat, k.stress, k.guard, k.scn);
             s.push_str("pre\n");
             for op in &r.pre {
                 s.push_str(&op.to_line());
@@ -508,6 +511,7 @@ impl Trace {
                             "repeat" => r.knobs.repeat = v,
                             "stress" => r.knobs.stress = v,
                             "scn" => r.knobs.scn = v,
+                            "guard" => r.knobs.guard = v,
                             _ => return Err(format!("unknown run key {k}")),
                         }
                     }
@@ -707,7 +711,19 @@ impl Gen<'_> {
         let (mx, my) = (1u64 << ssx, 1u64 << ssy);
         // threshold sizes of the mpv heuristic, thin in the other direction
         let thresh_pct = if self.prof == Profile::Metadata { 45 } else { 4 };
-        let (mut w, mut h) = if self.r.pct(thresh_pct) {
+        // very rarely a real video frame size: fast paths with pixel-count thresholds in the
+        // hundreds of thousands are out of reach of everything below
+        let video_one_in = if self.prof == Profile::Metadata { 400 } else { 2500 };
+        let (mut w, mut h) = if self.r.below(video_one_in) == 0 {
+            let (vw, vh) = self.r.pick(&[(720u64, 480u64), (720, 576), (704, 488), (640, 480), (768, 576), (1024, 768), (960, 720), (1280, 720), (256, 258), (320, 240), (352, 288)]);
+            // exact sizes (the thresholds of the heuristic) half of the time, a few rows/columns
+            // more otherwise (band and chunk sizes rarely divide those)
+            if self.r.pct(50) || self.prof == Profile::Metadata {
+                (vw, vh)
+            } else {
+                (vw + self.r.below(8), vh + self.r.below(8))
+            }
+        } else if self.r.pct(thresh_pct) {
             if self.r.pct(50) {
                 (self.r.pick(&[1279u64, 1280, 1281, 1276, 1284]), self.r.range(1, 4))
             } else {
@@ -951,6 +967,8 @@ impl Gen<'_> {
                 let c = self.r.below(N_CLASSES);
                 op.src = self.src_of_class(c);
                 op.slot = self.slot_of_class(c);
+                // half of the clones go through `Clone::clone_from` into whatever the slot holds
+                op.consume = self.r.below(2);
                 op
             }
             5 => {
@@ -1038,7 +1056,7 @@ fn generate_battery(seed: u64, r: &mut Rng) -> RunTrace {
             threads[ty as usize].push(enc);
         }
     }
-    RunTrace { seed, knobs: Knobs { slots, preempt: 0, heap: 0, iso: 0, repeat: 0, stress: 0, scn: 3 }, pre: Vec::new(), threads, sched: Vec::new() }
+    RunTrace { seed, knobs: Knobs { slots, preempt: 0, heap: 0, iso: 0, repeat: 0, stress: 0, guard: 0, scn: 3 }, pre: Vec::new(), threads, sched: Vec::new() }
 }
 
 /// Miri workload for C12: a "clone family". One float image and a clone of it sit in two slots;
@@ -1096,7 +1114,7 @@ fn generate_clone_family(seed: u64, r: &mut Rng) -> RunTrace {
         }
         threads.push(ops);
     }
-    RunTrace { seed, knobs: Knobs { slots: 12, preempt: 0, heap: 0, iso: 0, repeat: 0, stress: 0, scn: 4 }, pre: vec![new, cl], threads, sched: Vec::new() }
+    RunTrace { seed, knobs: Knobs { slots: 12, preempt: 0, heap: 0, iso: 0, repeat: 0, stress: 0, guard: 0, scn: 4 }, pre: vec![new, cl], threads, sched: Vec::new() }
 }
 
 /// Generates the explicit programme of one run from its seed.
@@ -1140,6 +1158,7 @@ pub fn generate(seed: u64, prof: Profile, miri: bool) -> RunTrace {
         iso: if miri { 0 } else { u64::from(r.pct(35)) * r.range(1, 2) },
         repeat: if miri { 1 } else { u64::from(r.pct(50)) },
         stress: 0,
+        guard: if miri { 0 } else { u64::from(r.pct(match prof { Profile::Safety => 30, Profile::Independence => 10, _ => 5 })) },
         scn: 0,
     };
     // a third of the native runs and two thirds of the Miri workloads are contention scenarios
@@ -1291,7 +1310,7 @@ pub fn miri_sized(tr: &RunTrace) -> RunTrace {
     for th in &mut t.threads {
         th.truncate(12);
     }
-    t.knobs = Knobs { heap: 0, iso: 0, stress: 0, repeat: 1, preempt: 0, ..t.knobs };
+    t.knobs = Knobs { heap: 0, iso: 0, stress: 0, repeat: 1, preempt: 0, guard: 0, ..t.knobs };
     t.sched.clear();
     t
 }
